@@ -1031,6 +1031,61 @@ type oracleIn struct {
 	im            *importer
 }
 
+// rows (not keyed by the event's peer) that the last diffTables call found removed / added
+type changedRow struct {
+	table, row string
+	added      bool
+}
+
+var lastChanged []changedRow
+
+// frameCause: the recorded defect, if any, that explains EVERY changed row of a frame failure.
+//
+//	imported-connect-instance  ensureServiceTxn runs checkGatewayWildcardsAndUpdate for an imported
+//	    connect-proxy / connect-native instance: each local gateway with a "*" service gets a
+//	    FromWildcard gateway-services row for the instance's destination name (existing
+//	    wildcard-derived rows of that name are re-stamped), ingress gateways also a mesh-topology row
+func frameCause(in *oracleIn) string {
+	dests := map[string]bool{}
+	for _, c := range in.nodes {
+		if c.Service.Kind == structs.ServiceKindConnectProxy {
+			dests[strings.ToLower(c.Service.Proxy.DestinationServiceName)] = true
+		} else if c.Service.Connect.Native {
+			dests[strings.ToLower(c.Service.Service)] = true
+		}
+	}
+	if len(dests) == 0 || len(lastChanged) == 0 {
+		return "none"
+	}
+	for _, ch := range lastChanged {
+		var m map[string]interface{}
+		if err := json.Unmarshal([]byte(ch.row), &m); err != nil {
+			return "none"
+		}
+		name := func(k string) string {
+			if o, ok := m[k].(map[string]interface{}); ok {
+				n, _ := o["Name"].(string)
+				return strings.ToLower(n)
+			}
+			return ""
+		}
+		switch ch.table {
+		case "gateway-services":
+			if fw, _ := m["FromWildcard"].(bool); !fw || !dests[name("Service")] {
+				return "none"
+			}
+		case "mesh-topology":
+			refs, _ := m["Refs"].(map[string]interface{})
+			if !dests[name("Upstream")] || len(refs) != 0 {
+				return "none"
+			}
+		default:
+			return "none"
+		}
+	}
+	return "imported-connect-instance"
+}
+
 func diffTables(peer string, a, b map[string][]string) []string {
 	var bad []string
 	tables := map[string]bool{}
@@ -1057,6 +1112,26 @@ func diffTables(peer string, a, b map[string][]string) []string {
 		}
 	}
 	sort.Strings(bad)
+	lastChanged = lastChanged[:0]
+	for _, t := range bad {
+		sa, sb := map[string]bool{}, map[string]bool{}
+		for _, r := range a[t] {
+			sa[r] = true
+		}
+		for _, r := range b[t] {
+			sb[r] = true
+		}
+		for _, r := range a[t] {
+			if rp := rowPeer(t, r); !sb[r] && rp != peer && rp != "*" {
+				lastChanged = append(lastChanged, changedRow{t, r, false})
+			}
+		}
+		for _, r := range b[t] {
+			if rp := rowPeer(t, r); !sa[r] && rp != peer && rp != "*" {
+				lastChanged = append(lastChanged, changedRow{t, r, true})
+			}
+		}
+	}
 	if os.Getenv("VERIF_DEBUG_FRAME") != "" {
 		for _, t := range bad {
 			sa, sb := map[string]bool{}, map[string]bool{}
@@ -1294,8 +1369,26 @@ func canonView(peer string, nodes structs.CheckServiceNodes, stripVIP bool) []vi
 	return out
 }
 
+// oracle evaluates every clause; when several fail, one that no recorded cause explains is
+// reported first (so a recorded defect in the same event cannot hide it)
 func oracle(in *oracleIn, vip bool) (string, map[string]interface{}, map[string]bool) {
 	flags := map[string]bool{}
+	type fail struct {
+		msg string
+		sig map[string]interface{}
+	}
+	var fails []fail
+	pick := func() (string, map[string]interface{}, map[string]bool) {
+		for _, f := range fails {
+			if c, ok := f.sig["cause"]; !ok || c == "none" {
+				return f.msg, f.sig, flags
+			}
+		}
+		if len(fails) > 0 {
+			return fails[0].msg, fails[0].sig, flags
+		}
+		return "", nil, flags
+	}
 	// 1. every backend call carries the peer name
 	for _, o := range in.ops {
 		if o.Peer != in.peer {
@@ -1321,17 +1414,17 @@ func oracle(in *oracleIn, vip bool) (string, map[string]interface{}, map[string]
 	}
 	// 2. frame: nothing that is not keyed by the peer changes, in any table
 	if bad := diffTables(in.peer, in.fullBefore, in.fullAfter); len(bad) > 0 {
-		sig := map[string]interface{}{"kind": "frame", "tables": strings.Join(bad, ","), "upstreams_involved": cl.hasUps || anyStoredUps(in)}
-		return "frame:" + strings.Join(bad, ","), sig, flags
+		sig := map[string]interface{}{"kind": "frame", "tables": strings.Join(bad, ","), "cause": frameCause(in)}
+		fails = append(fails, fail{"frame:" + strings.Join(bad, ","), sig})
 	}
 	if in.err != nil {
 		flags["error"] = true
-		return "", nil, flags
+		return pick()
 	}
 	switch in.kind {
 	case "upsert":
 		if !cl.coherent {
-			return "", nil, flags // not something a catalog sends: only the frame is owed
+			return pick() // not something a catalog sends: only the frame is owed
 		}
 		flags["mirror_applicable"] = !cl.rename && cl.idsStable && cl.owned
 		// 3. mirror
@@ -1364,7 +1457,7 @@ func oracle(in *oracleIn, vip bool) (string, map[string]interface{}, map[string]
 			wb, _ := json.Marshal(want)
 			hb, _ := json.Marshal(have)
 			sig := map[string]interface{}{"kind": "mirror", "cause": firstCause, "diff": first.kind}
-			return fmt.Sprintf("mirror(%s, %s at %s/%s/%s): want %s have %s", firstCause, first.kind, first.node, first.sid, first.cid, wb, hb), sig, flags
+			fails = append(fails, fail{fmt.Sprintf("mirror(%s, %s at %s/%s/%s): want %s have %s", firstCause, first.kind, first.node, first.sid, first.cid, wb, hb), sig})
 		}
 		// 4. other services of the same peer keep their instances and service-level checks
 		if msg, node := samePeerFrame(in); msg != "" {
@@ -1372,7 +1465,7 @@ func oracle(in *oracleIn, vip bool) (string, map[string]interface{}, map[string]
 			if cl.oldNames[node] {
 				cause = "node-id-moves" // the row sat on a node that the store deleted because its ID moved
 			}
-			return msg, map[string]interface{}{"kind": "same-peer-frame", "cause": cause}, flags
+			fails = append(fails, fail{msg, map[string]interface{}{"kind": "same-peer-frame", "cause": cause}})
 		}
 	case "list":
 		// 5. prune
@@ -1387,7 +1480,8 @@ func oracle(in *oracleIn, vip bool) (string, map[string]interface{}, map[string]
 		}
 		for _, s := range in.catAfter.Svcs {
 			if s.Peer == in.peer && !keep[strings.ToLower(s.Name)] {
-				return "prune: service " + s.Name + " still present", map[string]interface{}{"kind": "prune"}, flags
+				fails = append(fails, fail{"prune: service " + s.Name + " still present", map[string]interface{}{"kind": "prune"}})
+				break
 			}
 		}
 		for _, s := range in.catBefore.Svcs {
@@ -1403,12 +1497,12 @@ func oracle(in *oracleIn, vip bool) (string, map[string]interface{}, map[string]
 					if spelled[strings.ToLower(s.Name)] != s.Name {
 						cause = "name-respelled" // the list spells the name differently from the rows
 					}
-					return "prune: exported service row removed " + s.Name, map[string]interface{}{"kind": "prune-too-much", "cause": cause}, flags
+					fails = append(fails, fail{"prune: exported service row removed " + s.Name, map[string]interface{}{"kind": "prune-too-much", "cause": cause}})
 				}
 			}
 		}
 	}
-	return "", nil, flags
+	return pick()
 }
 
 // viewDiffs lists the differences between the received and the stored view, row by row
